@@ -191,6 +191,20 @@ PROPS = {
                        "linker data, handle data, soft-error serialisation are soft); init-phase steps are wrapped as soft errors (regenerated); expected tree "
                        "for every fail-point subset (compared path by path with the real stream).",
     },
+    "C03": {
+        "rule": "live: dumps that succeed, fail hard (unreadable app memory), hit a destination I/O error or a destination panic at a random call index 0 … 45, "
+                "or run with the process-wide stop disabled, against targets with blocked and busy threads; realtime signals are sent to chosen threads at the "
+                "sync-hook points dump_start / threads_enumerated / before_attach(tid) / threads_suspended / before_resume / after_resume. Afterwards: "
+                "State and TracerPid of every task, per-thread delivered-signal counters, heartbeat of busy threads. Distinct = (scenario, outcome, call, #tasks, #signals).",
+        "expected_tags": ["scen.ok", "scen.destfail", "scen.destpanic", "scen.badapp", "scen.nostop", "scen.ok-signals", "scen.destfail-signals", "signals.checked", "spin.checked", "result.panic"],
+        "trusted_base": ["kernel semantics of ptrace attach / signal-delivery-stop / detach / group stop / SIGCONT (assumed; the live matrix observes their effect)",
+                         "a failed PTRACE_CONT or a non-stop wait status means the tracee no longer exists"],
+        "assumptions": ["partial: the kernel side is not modelled beyond the assumptions above; externally sent SIGSTOP/SIGCONT are excluded",
+                        "the re-injection branch is reached only when a signal is reported during the attach wait (its hit count is not observable from outside)"],
+        "explanation": "C03 theorems over the dumper's action script: for every attach outcome of every thread and every ending (refused, init failure, hard error or "
+                       "panic after k capture steps, after resume, completion) every surviving attached thread is detached exactly once, the trace ends with SIGCONT, "
+                       "every signal seen while attaching is re-injected unchanged, no capture follows the first detach.",
+    },
 }
 
 NOT_APPLICABLE = {}
